@@ -194,7 +194,7 @@ def closure_truth(F, cf):
         val = mirq.value_on_path(cf, p, 0)
         if val[0] == 'tmp':
             val = None
-        atoms = dict(pf['atoms'])
+        atoms = mirq.canon_atoms(pf['atoms'])
         if val is None:
             continue
         c = const_of(val)
@@ -223,8 +223,8 @@ def closure_truth(F, cf):
             a1[k] = not neg
             a2 = dict(atoms)
             a2[k] = neg
-            out.append((a1, True))
-            out.append((a2, False))
+            out.append((mirq.canon_atoms(a1), True))
+            out.append((mirq.canon_atoms(a2), False))
     return out
 
 
